@@ -6,7 +6,8 @@ import RsslVerif.Gen.LayoutTables
 `checkAll` mirrors the final loop of `check_layout`.  The per-layer arithmetic is *not* written here: it is the straight-line `Op` programs
 that `tools/gens/c19.py` re-extracts from the Rust source on every run (`Gen.LayoutTables`), interpreted
 by `runOps`.  All arithmetic is `u32` with overflow checks (the harness is built with
-`overflow-checks = true`): every overflow / `unwrap` / `panic!` site is an explicit `Err.panic`.
+`overflow-checks = true`): every overflow / `unwrap` / `panic!` site is an explicit `Err.panic`; the
+`checked_*(..)?` forms (since fix 24ea36f) are `Err.unknown` (= the function returns `None`) instead.
 
 Not modelled: `TypeLayer::Modifier` (transparent in the source: `remove_modifier` / the `Modifier` arm
 return the inner type's layout), the collection of the types to check from the global and function
@@ -41,6 +42,11 @@ def Tys.toList : Tys → List Ty
   | .nil => []
   | .cons t ts => t :: ts.toList
 
+/-- `def.members.len()` -/
+def Tys.length : Tys → Nat
+  | .nil => 0
+  | .cons _ ts => ts.length + 1
+
 inductive Err where
   /-- `get_type_layout` returned `None` -/
   | unknown
@@ -66,6 +72,19 @@ def nextMultipleOf (a b : Nat) : Except Err Nat :=
   if b = 0 then .error (.panic "attempt to calculate the remainder with a divisor of zero")
   else if a % b = 0 then .ok a else addU32 a (b - a % b)
 
+/-- `u32::checked_mul(..)?`: overflow makes the calling function return `None` -/
+def mulU32? (a b : Nat) : Except Err Nat :=
+  if a * b ≤ u32Max then .ok (a * b) else .error .unknown
+
+/-- `u32::checked_add(..)?` -/
+def addU32? (a b : Nat) : Except Err Nat :=
+  if a + b ≤ u32Max then .ok (a + b) else .error .unknown
+
+/-- `u32::checked_next_multiple_of(..)?`: `None` for a zero divisor and on overflow -/
+def nextMultipleOf? (a b : Nat) : Except Err Nat :=
+  if b = 0 then .error .unknown
+  else if a % b = 0 then .ok a else addU32? a (b - a % b)
+
 /-- smallest power of two `≥ x` among `p, 2p, 4p, …` (at most `fuel` doublings) -/
 def pow2From : Nat → Nat → Nat → Nat
   | 0, p, _ => p
@@ -85,6 +104,8 @@ structure St where
   mem : Layout
   /-- array length `count` (a `u64`) -/
   count : Nat
+  /-- `def.members.len()` (Struct arm) -/
+  nmem : Nat
 
 def step (op : Op) (s : St) : Except Err St :=
   match op with
@@ -116,6 +137,28 @@ def step (op : Op) (s : St) : Except Err St :=
       | .ok z => .ok { s with lay := { s.lay with size := z } }
       | .error e => .error e
     else .error (.panic "called `Result::unwrap()` on an `Err` value: TryFromIntError(())")
+  | .alignUpToMemberChecked =>
+    match nextMultipleOf? s.lay.size s.mem.align with
+    | .ok z => .ok { s with lay := { s.lay with size := z } }
+    | .error e => .error e
+  | .addMemberSizeChecked =>
+    match addU32? s.lay.size s.mem.size with
+    | .ok z => .ok { s with lay := { s.lay with size := z } }
+    | .error e => .error e
+  | .roundSizeToAlignChecked =>
+    match nextMultipleOf? s.lay.size s.lay.align with
+    | .ok z => .ok { s with lay := { s.lay with size := z } }
+    | .error e => .error e
+  | .mulSizeCountChecked =>
+    -- `layout.size.checked_mul(u32::try_from(count).ok()?)?`
+    if s.count ≤ u32Max then
+      match mulU32? s.lay.size s.count with
+      | .ok z => .ok { s with lay := { s.lay with size := z } }
+      | .error e => .error e
+    else .error .unknown
+  | .sizeOneIfNoMembers =>
+    -- `if def.members.is_empty() && matches!(mode, <the mode this op is listed for>) { layout.size = 1; }`
+    if s.nmem = 0 then .ok { s with lay := { s.lay with size := 1 } } else .ok s
 
 def runOps : List Op → St → Except Err St
   | [], s => .ok s
@@ -149,15 +192,15 @@ def get (m : Mode) : Ty → Except Err Layout
   | .vec s n =>
     match scalarLayout s with
     | .error e => .error e
-    | .ok l => runLay (vectorOps m) ⟨l, n, l, 0⟩
+    | .ok l => runLay (vectorOps m) ⟨l, n, l, 0, 0⟩
   | .arr t n =>
     match get m t with
     | .error e => .error e
-    | .ok l => runLay (arrayOps m) ⟨l, 0, l, n⟩
+    | .ok l => runLay (arrayOps m) ⟨l, 0, l, n, 0⟩
   | .struct ms =>
     match getMembers m ms ⟨structInit.1, structInit.2⟩ with
     | .error e => .error e
-    | .ok l => runLay (structFinalOps m) ⟨l, 0, l, 0⟩
+    | .ok l => runLay (structFinalOps m) ⟨l, 0, l, 0, ms.length⟩
   | .enum u => scalarLayout u
   | .other l => otherLayout l
 /-- the member loop of the `Struct` arm, from accumulator `acc` -/
@@ -167,7 +210,7 @@ def getMembers (m : Mode) : Tys → Layout → Except Err Layout
     match get m t with
     | .error e => .error e
     | .ok ml =>
-      match runLay (structMemberOps m) ⟨acc, 0, ml, 0⟩ with
+      match runLay (structMemberOps m) ⟨acc, 0, ml, 0, 0⟩ with
       | .error e => .error e
       | .ok acc' => getMembers m ts acc'
 end
@@ -226,6 +269,31 @@ def offStep (gh gm : Except Err Layout) (rec : Except Err Bool) (count : Nat) (o
     match addU32 s.cm s.lm.size with
     | .ok z => .ok (.next { s with cm := z })
     | .error e => .error e
+  | .alignHlslChecked =>
+    match nextMultipleOf? s.ch s.lh.align with
+    | .ok z => .ok (.next { s with ch := z })
+    | .error e => .error e
+  | .alignMetalChecked =>
+    match nextMultipleOf? s.cm s.lm.align with
+    | .ok z => .ok (.next { s with cm := z })
+    | .error e => .error e
+  | .advanceHlslChecked =>
+    match addU32? s.ch s.lh.size with
+    | .ok z => .ok (.next { s with ch := z })
+    | .error e => .error e
+  | .advanceMetalChecked =>
+    match addU32? s.cm s.lm.size with
+    | .ok z => .ok (.next { s with cm := z })
+    | .error e => .error e
+  | .requireEqualStrideIfSeveralChecked =>
+    if count > 1 then
+      match nextMultipleOf? s.lh.size s.lh.align with
+      | .error e => .error e
+      | .ok a =>
+        match nextMultipleOf? s.lm.size s.lm.align with
+        | .error e => .error e
+        | .ok b => if a ≠ b then .ok (.ret false) else .ok (.next s)
+    else .ok (.next s)
   | .zeroCountTrue => if count = 0 then .ok (.ret true) else .ok (.next s)
   | .requireEqualStrideIfSeveral =>
     if count > 1 then
@@ -294,10 +362,10 @@ def checkOne (t : Ty) : Except Err (Option (Layout × Layout)) :=
     match get .metal t with
     | .error e => .error e
     | .ok lm =>
-      match runLay (checkTopOps .hlsl) ⟨lh, 0, lh, 0⟩ with
+      match runLay (checkTopOps .hlsl) ⟨lh, 0, lh, 0, 0⟩ with
       | .error e => .error e
       | .ok lh' =>
-        match runLay (checkTopOps .metal) ⟨lm, 0, lm, 0⟩ with
+        match runLay (checkTopOps .metal) ⟨lm, 0, lm, 0, 0⟩ with
         | .error e => .error e
         | .ok lm' =>
           match (if hasOffsetsMatch then offsetsMatch t else .ok true) with
